@@ -156,7 +156,18 @@ fn panic_violation(kind: &str, input: J, p: &PanicInfo, test_body: String) -> Vi
     }
 }
 
+/// Set in the `c01-trace` child: every input is printed before it is executed, so that after an abnormal
+/// exit (stack overflow, abort: nothing `catch_unwind` can see) the last line names the input.
+static TRACE: std::sync::atomic::AtomicBool = std::sync::atomic::AtomicBool::new(false);
+
+fn trace(input: J) {
+    if TRACE.load(std::sync::atomic::Ordering::Relaxed) {
+        println!("TRACE {}", input);
+    }
+}
+
 fn check_source(src: &str, cx: &Ctxs, typed: bool, st: &mut Stats) {
+    trace(json!({"source": src}));
     st.evaluations += 1;
     match guarded(|| exercise(src, cx, typed)) {
         Ok(n) => {
@@ -272,6 +283,7 @@ fn part_builtins(tier: Tier) -> Stats {
             let c = ctx_with(&[("x", arg)]);
             let lit = arg.literal();
             for (name, tree) in &trees {
+                trace(json!({"builtin": name, "argument": arg.to_json()}));
                 st.evaluations += 1;
                 st.count("c/builtin-calls");
                 let r = guarded(|| {
@@ -316,6 +328,7 @@ fn part_operators() -> Stats {
                 srcs.push("(x, y)".into());
                 srcs.push("x; y".into());
                 for src in srcs {
+                    trace(json!({"source": src, "x": a.to_json(), "y": b.to_json()}));
                     st.evaluations += 1;
                     st.count("d/operator-applications");
                     let r = guarded(|| {
@@ -401,6 +414,23 @@ pub fn families() -> Vec<(&'static str, fn(usize) -> String)> {
 pub const PUMP_LENGTHS: [usize; 5] = [4096, 4095, 2048, 1024, 257];
 
 /// Child entry: `--child c01 <family> <length>`; exit 0 = returned normally, 101 = caught panic.
+/// `--child c01-trace`: the quick-tier parts (a)-(d), (f), (g) on one thread with tracing on. Used by the
+/// driver after the check itself ended abnormally; the last TRACE line is the input that kills the process.
+pub fn trace_main() -> i32 {
+    TRACE.store(true, std::sync::atomic::Ordering::Relaxed);
+    rayon::ThreadPoolBuilder::new().num_threads(1).stack_size(8 << 20).build_global().ok();
+    let t = Tier::Quick;
+    let mut st = Stats::new();
+    st.merge(part_identifiers(3));
+    st.merge(part_code_points(false));
+    st.merge(part_chars(3));
+    st.merge(part_tokens(4, 3));
+    st.merge(part_operators());
+    st.merge(part_builtins(t));
+    println!("TRACE-DONE {} inputs executed without an abnormal exit", st.evaluations);
+    0
+}
+
 pub fn child_main(args: &[String]) -> i32 {
     let fam: usize = args.get(1).and_then(|s| s.parse().ok()).unwrap_or(usize::MAX);
     let len: usize = args.get(2).and_then(|s| s.parse().ok()).unwrap_or(0);
